@@ -159,3 +159,123 @@ def show(t):
     if tag == "slice":
         return "%s[%s:%s]" % (show(t[1]), show(t[2]) if t[2] else "", show(t[3]) if t[3] else "")
     return "%s(%s)" % (tag, ", ".join(show(x) if isinstance(x, tuple) else repr(x) for x in t[1:]))
+
+
+# ----------------------------------------------------------------------------------------------------------------------
+# canonical forms and pattern matching (rename-insensitive comparison of state transformers)
+
+_MODS = ("hmac", "hashlib", "functools", "math", "struct", "os", "operator")
+
+
+def canon(t):
+    """Canonical form: '+' chains flattened (associative), functools.partial applied, module attributes as ('fn', dotted),
+    hmac.new / hashlib.new argument positions named."""
+    if not isinstance(t, tuple) or not t:
+        return t
+    tag = t[0]
+    if tag == "xor":
+        out = ("zero",)
+        for x in t[1]:
+            out = xor(out, canon(x))
+        return out
+    if tag == "attr":
+        inner = canon(t[1])
+        if inner[0] == "var" and inner[1] in _MODS:
+            return ("fn", "%s.%s" % (inner[1], t[2]))
+        if inner[0] == "fn":
+            return ("fn", "%s.%s" % (inner[1], t[2]))
+        return ("attr", inner, t[2])
+    if tag == "op" and t[1] == "Add":
+        parts = []
+        for side in (canon(t[2]), canon(t[3])):
+            if side[0] == "cat":
+                parts += list(side[1])
+            elif side == ("const", b"") or side == ("const", ""):
+                continue
+            else:
+                parts.append(side)
+        if not parts:
+            return ("const", b"")
+        if len(parts) == 1:
+            return parts[0]
+        return ("cat", tuple(parts))
+    if tag == "call":
+        f = canon(t[1]) if isinstance(t[1], tuple) else t[1]
+        args = tuple(canon(a) for a in t[2])
+        kws = tuple(sorted((k, canon(v)) for k, v in t[3]))
+        if f[0] == "fnval":
+            f = canon(f[1])
+        # applying a partial
+        if f[0] == "call" and f[1] == ("fn", "functools.partial") and f[2]:
+            inner = f[2][0]
+            if inner[0] == "var":
+                inner = ("fn", inner[1])
+            return canon(("call", inner, tuple(f[2][1:]) + args, tuple(sorted(dict(list(f[3]) + list(kws)).items()))))
+        if f == ("fn", "hmac.new"):
+            names = ("key", "msg", "digestmod")
+            named = dict(kws)
+            for i, a in enumerate(args):
+                if i < len(names):
+                    named[names[i]] = a
+            return ("call", f, (named.get("key"), named.get("msg")), (("digestmod", named.get("digestmod")),))
+        if f == ("fn", "hashlib.new"):
+            named = dict(kws)
+            name = args[0] if args else named.get("name")
+            data = args[1] if len(args) > 1 else named.get("data")
+            return ("call", f, (name,) + ((data,) if data is not None else ()), ())
+        return ("call", f, args, kws)
+    return tuple(canon(x) if isinstance(x, tuple) else x for x in t)
+
+
+def mv(name):
+    """A pattern variable."""
+    return ("mv", name)
+
+
+def unify(pat, t, b):
+    """Match pattern against term extending binding dict `b` (pattern variables ('mv', name)); -> bool."""
+    if isinstance(pat, tuple) and pat and pat[0] == "mv":
+        if pat[1] in b:
+            return b[pat[1]] == t
+        b[pat[1]] = t
+        return True
+    if not isinstance(pat, tuple) or not isinstance(t, tuple):
+        return pat == t
+    if len(pat) != len(t):
+        return False
+    for x, y in zip(pat, t):
+        if isinstance(x, tuple) or isinstance(y, tuple):
+            if not (isinstance(x, tuple) and isinstance(y, tuple)):
+                return False
+            if x and x[0] == "mv":
+                if not unify(x, y, b):
+                    return False
+                continue
+            # plain tuples of terms (argument lists) and terms are both tuples: recurse
+            if not unify(x, y, b):
+                return False
+        elif x != y:
+            return False
+    return True
+
+
+def match_all(equations, roles, candidates, fixed=None):
+    """Find an assignment role -> candidate variable such that every (pattern, term_of(assignment)) unifies.
+
+    equations: list of (pattern, getter) where getter(assign) returns the term to match (or None).
+    Returns (assignment, binding) or None."""
+    import itertools
+    for perm in itertools.permutations(candidates, len(roles)):
+        assign = dict(zip(roles, perm))
+        b = dict(fixed or {})
+        for r, v in assign.items():
+            b[r] = ("var", v)
+        ok = True
+        for pat, getter in equations:
+            t = getter(assign)
+            if t is None or not unify(pat, t, b):
+                ok = False
+                break
+        if ok:
+            return assign, b
+    return None
